@@ -1,8 +1,8 @@
 (* C14 -- every Ping is answered by exactly one matching Pong, in order.  Statements only. *)
-From Coq Require Import List NArith Bool.
+From Coq Require Import List NArith ZArith Bool.
 From Coq.Strings Require Import Byte.
-From Model Require Import Bytes Frame Conn.
-From Proofs Require Import ApiFacts TraceFacts.
+From Model Require Import Bytes Frame Parser FrameParser Conn.
+From Proofs Require Import ApiFacts TraceFacts ConnFacts DeliveryFacts.
 Import ListNotations.
 Open Scope N_scope.
 
@@ -35,3 +35,18 @@ Print Assumptions C14_unwritable_pong_is_silent.
 Theorem C14_pong_payload : forall key p, length key = 4%nat -> blen p < 9223372036854775808 ->
   server_decode (build OP_PONG false key p) = Some (Proofs.FrameFacts.client_frame OP_PONG false key p, []).
 Proof. intros. apply Proofs.FrameFacts.build_roundtrip; auto. reflexivity. Qed.
+
+(* The whole stream.  For every conforming frame list (any fragmentation, Pings anywhere, also between the fragments of a
+   data message and back to back in one read; any legal length encoding) cut into reads in any way, with automatic pongs
+   enabled, a working transport (socket open, no write fault, 4-byte masking keys), no Close sent by the client and an
+   application that sends nothing itself: the frames the library writes -- as the reference server of RFC 6455 section
+   5.2 decodes them -- are exactly one Pong per Ping of the reference reading, carrying the Ping's payload, in the order
+   in which the Pings arrived, and nothing else (no automatic Ping is due: ping_rate = 0); the transport still works. *)
+Theorem C14_one_pong_per_ping_in_order : forall cf app, passive app -> zpos (c_ping_timeout cf) = None ->
+  forall fs lfs ds c open ms open',
+  c_auto_pong cf = true -> c_ping_rate cf = 0%Z ->
+  idle c open -> data_head open -> Forall plain fs -> forms_ok fs lfs ->
+  ref_messages open fs = Some (ms, open') -> concat ds = encode_all fs lfs -> wok c ->
+  exists c', feed_chunks cf app c ds = (c', SOk) /\ wok c' /\ writes (k_tr c') = rev (pong_replies ms) ++ writes (k_tr c).
+Proof. exact pongs_in_order. Qed.
+Print Assumptions C14_one_pong_per_ping_in_order.
